@@ -281,6 +281,69 @@ fn flag(v: &Value) -> bool {
     v.as_bool().unwrap_or(true)
 }
 
+
+/// Gap cases: a context WITHOUT a zone, an aware input shortly before a forward transition of its
+/// own zone, and an expression whose bounds lie inside the skipped wall-clock span: the naive result
+/// is a local time that does not exist in the input's zone and has to come back as the first valid
+/// instant after it (what the core's `TzLocation::datetime` gives). Every zone of the database x
+/// every forward transition of the given years.
+fn gap_cases(args: &Args, rep: &mut Report, first_id: u64) -> Vec<Value> {
+    let mut cases = Vec::new();
+    let mut cache = std::collections::HashMap::new();
+    let years: Vec<i32> = if args.thorough() { (1971..=2036).collect() } else { vec![1975, 1988, 1993, 2000, 2006, 2010, 2011, 2016, 2021, 2022, 2024] };
+    let mut id = first_id;
+    for tz in chrono_tz::TZ_VARIANTS.iter() {
+        for &year in &years {
+            for tr in super::c09::transitions(*tz, year, &mut cache) {
+                let (at_utc, before, after) = tr;
+                if after <= before || at_utc.date().year() != year {
+                    continue;
+                }
+                // skipped wall-clock span [gap_start, gap_end)
+                let gap_start = at_utc + Duration::seconds(before as i64);
+                let gap_len = (after - before) as i64;
+                let mut r = Rng::new(args.seed, 0x6a9, id);
+                // a bound strictly inside the gap (minute-aligned) when the gap holds one
+                let inside = (gap_start + Duration::seconds(r.range(1, gap_len.max(2)))).with_second(0).unwrap();
+                let inside = if inside < gap_start { inside + Duration::minutes(1) } else { inside };
+                if inside >= gap_start + Duration::seconds(gap_len) || inside.date() != gap_start.date() {
+                    continue;
+                }
+                let (h, m) = (inside.hour(), inside.minute());
+                let end = inside + Duration::hours(4);
+                let text = format!("{:02}:{:02}-{:02}:{:02}", h, m, if end.date() != inside.date() { end.hour() + 24 } else { end.hour() }, end.minute());
+                let Ok(Ok(oh)) = guarded(|| OpeningHours::parse(&text)) else { continue };
+                let input = In::Aware(tz.from_utc_datetime(&(at_utc - Duration::minutes(r.range(1, 240)))));
+                let n = match &input {
+                    In::Aware(t) => t.naive_local(),
+                    In::Naive(t) => *t,
+                };
+                let mut calls = Vec::new();
+                if let Ok(Some(x)) = stream::with_day_budget(BUDGET, || oh.next_change(n)) {
+                    calls.push(json!({"method": "next_change", "dt": input.json(), "expect": x.map(|u| out_dt_naive_ctx(u, Some(*tz))).unwrap_or(Value::Null)}));
+                }
+                if let Ok(Some(ivs)) = stream::with_day_budget(BUDGET, || oh.iter_from(n).take(3).collect::<Vec<_>>()) {
+                    let list: Vec<Value> = ivs
+                        .iter()
+                        .map(|iv| {
+                            let end = if iv.range.end == DATE_END { Value::Null } else { out_dt_naive_ctx(iv.range.end, Some(*tz)) };
+                            json!([out_dt_naive_ctx(iv.range.start, Some(*tz)), end, iv.kind.to_string(), iv.comments.iter().map(|c| c.to_string()).collect::<Vec<_>>()])
+                        })
+                        .collect();
+                    calls.push(json!({"method": "intervals", "dt": input.json(), "end": Value::Null, "expect": list, "take": 3}));
+                }
+                let s = oh.to_string();
+                let ctor = json!({"oh": text, "timezone": Value::Null, "country": Value::Null, "coords": Value::Null, "auto_country": "omit", "auto_timezone": "omit"});
+                cases.push(json!({"id": id, "ctor": ctor, "validate": true, "str": s, "repr": format!("OpeningHours({:?})", s), "normalize_str": oh.normalize().to_string(), "context": "naive", "calls": calls, "gap_case": true}));
+                rep.count("gap_cases");
+                rep.evaluations += 1;
+                id += 1;
+            }
+        }
+    }
+    cases
+}
+
 pub fn gen(args: &Args, rep: &mut Report, path: &str, n: u64) {
     let mut cases = Vec::new();
     for k in 0..n {
@@ -384,6 +447,8 @@ pub fn gen(args: &Args, rep: &mut Report, path: &str, n: u64) {
         rep.evaluations += 1;
         cases.push(case);
     }
+    let gaps = gap_cases(args, rep, n + 1);
+    cases.extend(gaps);
     // validate(): a table of valid and invalid strings
     let mut validate = Vec::new();
     for s in INVALID_EXPRS {
